@@ -999,6 +999,8 @@ def run_raire(ctx, res, st):
 
 # ---------------------------------------------------------------------------------------------- entry point
 def run(ctx, res):
+    from . import genarith
+    genarith.regenerate(ctx.pid, "audit", res)   # regenerated tie: overstatement assorter, u bound, tally margins (DESIGN 2.1)
     import time
     st = {}
     res.stats = st
